@@ -47,6 +47,7 @@ namespace Lifecycle
 def upd {α : Type} (f : Nat → α) (k : Nat) (v : α) : Nat → α := fun i => if i = k then v else f i
 
 @[simp] theorem upd_same {α : Type} (f : Nat → α) (k : Nat) (v : α) : upd f k v k = v := by simp [upd]
+theorem upd_apply {α : Type} (f : Nat → α) (k i : Nat) (v : α) : upd f k v i = if i = k then v else f i := rfl
 theorem upd_other {α : Type} (f : Nat → α) (k i : Nat) (v : α) (h : i ≠ k) : upd f k v i = f i := by simp [upd, h]
 
 /-! ## (A) -/
@@ -352,11 +353,11 @@ def dbTryBeginResumeTwoStatements (db : DB) (now : Nat) (crashTimeout : Option N
 /-- releaser `_release_idle_handler` → `_await_and_mark_released` -/
 inductive RPc
   | absent
-  | start                  -- timer fired, before begin_release
-  | won (at_ : Nat)        -- begin_release returned True (at time `at_`)
-  | sentRelease (at_ : Nat) -- TickIdleRelease sent; awaiting the workflow's result
-  | done                   -- complete_release executed
-  | lostCas                -- begin_release returned False
+  | start                              -- timer fired, before begin_release
+  | won (at_ : Nat)                    -- begin_release returned True (at time `at_`)
+  | sentRelease (at_ : Nat) (inc : Nat) -- TickIdleRelease sent to workflow incarnation `inc`; awaiting its result
+  | done                               -- complete_release executed
+  | lostCas                            -- begin_release returned False
 deriving DecidableEq, Repr
 
 /-- resumer `DBOSIdleReleaseExternalRunAdapter.send_event` (tick id = its index) -/
@@ -371,8 +372,20 @@ deriving DecidableEq, Repr
 inductive Msg | tick (k : Nat) | idleRelease
 deriving DecidableEq, Repr
 
-/-- CAS wins in order (ghost) -/
+/-- a CAS that changed the row (ghost) -/
 inductive Win | created | release (i : Nat) | resume (k : Nat) (takeover : Bool)
+deriving DecidableEq, Repr
+
+def Win.isRelease : Win → Bool
+  | .release _ => true
+  | _ => false
+
+/-- a resume that took over a row stuck in `releasing` (ghost record) -/
+structure Takeover where
+  releaser : Nat       -- whose release was superseded
+  began : Nat          -- time of its begin_release
+  at_ : Nat            -- time of the takeover
+  wasCrashed : Bool    -- the releaser had crashed by then
 deriving DecidableEq, Repr
 
 structure Sys where
@@ -382,13 +395,14 @@ structure Sys where
   res : Nat → UPc := fun _ => .absent
   crashed : Nat → Bool := fun _ => false
   wfUp : Bool := true              -- a DBOS workflow for this run id is executing
+  wfInc : Nat := 0                 -- its incarnation
   inbox : List Msg := []           -- messages sent to the executing (or last) workflow, not yet consumed
   processed : List Nat := []       -- ticks the run has reduced (persisted in the tick log)
   stranded : List Nat := []        -- ticks sent to a workflow that had exited; purged by the next resume
   -- ghosts
-  wins : List Win := []
+  wins : List Win := []            -- row-changing CAS wins, newest first
   holder : Option Nat := none      -- the releaser whose `releasing` the row currently shows
-  takeovers : List (Nat × Nat × Nat) := []  -- (superseded releaser, time of its begin_release, time of the takeover)
+  takeovers : List Takeover := []
   busyStops : Nat := 0             -- workflows that exited on TickIdleRelease with ticks still in the inbox
 
 inductive BAct
@@ -403,31 +417,32 @@ def crashTimeout : Nat := GenLifecycle.crashTimeoutMs
 
 def bstep (s : Sys) : BAct → Option Sys
   | .tick dt => some { s with now := s.now + dt }
-  | .create => if s.db.isNone then some { s with db := dbCreate s.db s.now, wins := s.wins ++ [.created] } else none
+  | .create => if s.db.isNone then some { s with db := dbCreate s.db s.now, wins := .created :: s.wins } else none
   | .rSpawn i => if s.rel i == .absent then some { s with rel := upd s.rel i .start } else none
   | .rBegin i =>
     if s.rel i == .start && !s.crashed i then
       let r := dbBeginRelease s.db s.now
-      if r.2 then some { s with db := r.1, rel := upd s.rel i (.won s.now), wins := s.wins ++ [.release i], holder := some i }
+      if r.2 then some { s with db := r.1, rel := upd s.rel i (.won s.now), wins := .release i :: s.wins, holder := some i }
       else some { s with rel := upd s.rel i .lostCas }
     else none
   | .rSend i =>
     match s.rel i with
-    | .won t => if s.crashed i then none else some { s with rel := upd s.rel i (.sentRelease t), inbox := s.inbox ++ [.idleRelease] }
+    | .won t =>
+      if s.crashed i then none
+      else some { s with rel := upd s.rel i (.sentRelease t s.wfInc), inbox := s.inbox ++ [.idleRelease] }
     | _ => none
   | .rComplete i =>
     match s.rel i with
-    | .sentRelease _ =>
-      -- `await external.get_result()` returns once the workflow has exited
-      if s.crashed i || s.wfUp then none else
-      let db' := dbCompleteRelease s.db s.now
-      some { s with db := db', rel := upd s.rel i .done,
+    | .sentRelease _ inc =>
+      -- `await external.get_result()` returns once the workflow it released has exited
+      if s.crashed i || (inc == s.wfInc && s.wfUp) then none else
+      some { s with db := dbCompleteRelease s.db s.now, rel := upd s.rel i .done,
                     holder := if s.holder = some i then none else s.holder }
     | _ => none
   | .rCrash i =>
     match s.rel i with
     | .won _ => some { s with crashed := upd s.crashed i true }
-    | .sentRelease _ => some { s with crashed := upd s.crashed i true }
+    | .sentRelease _ _ => some { s with crashed := upd s.crashed i true }
     | .start => some { s with crashed := upd s.crashed i true }
     | _ => none
   | .uSpawn k => if s.res k == .absent then some { s with res := upd s.res k .start } else none
@@ -438,10 +453,10 @@ def bstep (s : Sys) : BAct → Option Sys
       | none => some { s with res := upd s.res k .pass }
       | some .released =>
         let take := match s.db with | some row => decide (row.st = .releasing) | none => false
-        some { s with db := r.1, res := upd s.res k .owner, wins := s.wins ++ [.resume k take],
+        some { s with db := r.1, res := upd s.res k .owner, wins := .resume k take :: s.wins,
                       holder := none,
                       takeovers := match take, s.holder, s.db with
-                        | true, some i, some row => s.takeovers ++ [(i, row.upd, s.now)]
+                        | true, some i, some row => { releaser := i, began := row.upd, at_ := s.now, wasCrashed := s.crashed i } :: s.takeovers
                         | _, _, _ => s.takeovers }
       | some _ => some { s with res := upd s.res k .waiting }
     else none
@@ -452,10 +467,11 @@ def bstep (s : Sys) : BAct → Option Sys
       else some { s with res := upd s.res k .done, stranded := s.stranded ++ [k] }
     else none
   | .uFinish k =>
-    -- _do_resume: awaits the old workflow's result, purges its DBOS state, rebuilds from the tick log
+    -- _do_resume: awaits the old workflow's result (assumption OldWorkflowFinished: the code logs and
+    -- continues if the handle cannot be retrieved), purges its DBOS state, rebuilds from the tick log
     -- plus the pending tick, starts a new workflow under the same run id
     if s.res k == .owner && !s.wfUp then
-      some { s with res := upd s.res k .done, wfUp := true,
+      some { s with res := upd s.res k .done, wfUp := true, wfInc := s.wfInc + 1,
                     stranded := s.stranded ++ s.inbox.filterMap (fun m => match m with | .tick t => some t | .idleRelease => none),
                     inbox := [.tick k] }
     else none
@@ -470,5 +486,20 @@ def bstep (s : Sys) : BAct → Option Sys
 
 def bstepD (s : Sys) (a : BAct) : Sys := (bstep s a).getD s
 def brun (s : Sys) (acts : List BAct) : Sys := acts.foldl bstepD s
+
+/-- CAS wins alternate between release wins and activating wins (create / resume) -/
+def altWins : List Win → Bool
+  | a :: b :: rest => (a.isRelease != b.isRelease) && altWins (b :: rest)
+  | _ => true
+
+/-- every live releaser that holds the `releasing` state is younger than the crash timeout -/
+def promptAt (s : Sys) (_ : BAct) : Bool :=
+  match s.holder, s.db with
+  | some i, some row => s.crashed i || !(row.st == .releasing) || !GenLifecycle.crashExpired (s.now - row.upd) crashTimeout
+  | _, _ => true
+
+def balongB (p : Sys → BAct → Bool) : Sys → List BAct → Bool
+  | _, [] => true
+  | s, a :: as => p s a && balongB p (bstepD s a) as
 
 end Lifecycle
